@@ -3,7 +3,8 @@
     generators; sorting optimiser; multi-objective choice; protocol-level select). *)
 From Coq Require Import Permutation Sorting.Sorted Qround PrimFloat.
 From PV Require Import Lib.Common Model.C17_Sampling Proofs.C17_Sampling Model.C07_Config
-  Proofs.C07_LocalOpt Proofs.C07_Tail Proofs.C07_Xmap Proofs.C07_Sort Proofs.C07_Tiled Proofs.C07_RealMateMo Proofs.C07_Integer.
+  Proofs.C07_LocalOpt Proofs.C07_Tail Proofs.C07_Xmap Proofs.C07_Sort Proofs.C07_Tiled Proofs.C07_RealMateMo Proofs.C07_Integer Proofs.C07_MateExt
+  Gen.C07_Kernel Model.C07_KernelProg Proofs.C07_Kernel.
 
 (** * the tail of every individual-based configuration: outcross descent, then a shuffle within every cross.
     For every table, every oracle of exchange orders and every within-cross permutation: the entries are permuted, the number of
@@ -148,6 +149,264 @@ Theorem C07_old_protocol_mating_refuted :
   (exists nc m, old_matpar_proto_ok nc m = true /\ matpar_cfg_ok nc m = false /\ m = MArray [1;1;1]%Z /\ nc = 2%nat).
 Proof. exact old_proto_mating_refuted. Qed.
 Print Assumptions C07_old_protocol_mating_refuted.
+
+(** * The kernel expressions of the CURRENT source.  Gen/C07_Kernel.v is regenerated from the source on every run by
+    harness/translate/c07_kernel.py; Model/C07_KernelProg.v assembles the configurations, the cross-design checks, the
+    multi-objective choice, the sorting optimiser and the cross-map generators from those expressions.  The theorems below are
+    about the ASSEMBLED programs: a changed expression of the source (replace = <condition>, a transposed size, another axis,
+    another divisor in the integer pointers, argmin, soln_decn[0] for several objectives, check_is_gteq, swapped attributes
+    handed to the configuration, l[-1] for l[-1]+1, ix[1:ndecn]) changes the regenerated definitions, and this file stops
+    compiling whatever the generated cases exercise. *)
+Theorem C07_kernel_is_model :
+  (forall nc np decn choice perm pms, kcfg_subset nc np decn choice perm pms = cfg_subset nc np decn choice perm pms) /\
+  (forall nc np decn choice perm pms, kcfg_binary nc np decn choice perm pms = cfg_binary nc np decn choice perm pms) /\
+  (forall nc np decn start perm pms, kcfg_integer nc np decn start perm pms = cfg_integer nc np decn start perm pms) /\
+  (forall nc np decn order off perm pms, kcfg_real_f nc np decn order off perm pms = cfg_real_f nc np decn order off perm pms) /\
+  (forall nc np decn order off perm pms, kcfg_real_q nc np decn order off perm pms = cfg_real_q nc np decn order off perm pms) /\
+  (forall nc np decn xmap choice perm perm2, kcfg_mate nc np decn xmap choice perm perm2 = cfg_mate nc np decn xmap choice perm perm2) /\
+  (forall nc np decn xmap start perm, kcfg_integer_mate nc np decn xmap start perm = cfg_integer_mate nc np decn xmap start perm) /\
+  (forall nc np decn xmap choice perm perm2, kcfg_binary_mate nc np decn xmap choice perm perm2 = cfg_binary_mate nc np decn xmap choice perm perm2) /\
+  (forall nc np decn xmap order off perm perm2, kcfg_real_mate_f nc np decn xmap order off perm perm2 = cfg_real_mate_f nc np decn xmap order off perm perm2) /\
+  (forall nc np decn xmap order off perm perm2, kcfg_real_mate_q nc np decn xmap order off perm perm2 = cfg_real_mate_q nc np decn xmap order off perm perm2) /\
+  (forall nc np nm npg, kproto_args_ok nc np nm npg = proto_args_ok nc np nm npg) /\
+  (forall nc np nm npg, kcfg_args_ok nc np nm npg = cfg_args_ok nc np nm npg) /\
+  (forall crit k, ksort_select crit k = sort_select crit k) /\
+  (forall n k u, (0 < k)%nat -> kxmapix n k u = xmapix n k u).
+Proof.
+  exact (conj kcfg_subset_model (conj kcfg_binary_model (conj kcfg_integer_model (conj kcfg_real_f_model (conj kcfg_real_q_model
+        (conj kcfg_mate_model (conj kcfg_integer_mate_model (conj kcfg_binary_mate_model (conj kcfg_real_mate_f_model (conj kcfg_real_mate_q_model
+        (conj kproto_args_ok_model (conj kcfg_args_ok_model (conj ksort_select_model kxmapix_model))))))))))))).
+Qed.
+Print Assumptions C07_kernel_is_model.
+
+(** subsets: every member is used floor or ceiling of t/k times (t = ncross*nparent slots, k members), only members are used,
+    the final arrangement is a 2-exchange local optimum of the self-pairing count *)
+Theorem C07_kernel_subset_even_use : forall nc np decn choice perm pms r,
+  (0 < length decn)%nat -> NoDup decn ->
+  NoDup choice -> Forall (fun p => (p < length decn)%nat) choice -> length choice = ((nc * np) mod length decn)%nat ->
+  Permutation perm (seq 0 (nc * np)) ->
+  (forall x, cfg_subset_sample nc np decn choice perm = Some x -> draws_ok np x pms) ->
+  kcfg_subset nc np decn choice perm pms = Some r ->
+  length r = (nc * np)%nat /\ (forall v, In v r -> In v decn) /\
+  (forall i, (i < length decn)%nat ->
+      count_z (nth i decn 0%Z) r = ((nc * np) / length decn + count_nat i choice)%nat /\ (count_nat i choice <= 1)%nat) /\
+  local_opt np r.
+Proof. exact kcfg_subset_spec. Qed.
+Print Assumptions C07_kernel_subset_even_use.
+
+Theorem C07_kernel_binary_even_use : forall nc np x choice perm pms r,
+  let opts := rep_from 0 x in let t := (nc * np)%nat in
+  (0 < length opts)%nat -> NoDup choice -> Forall (fun p => (p < length opts)%nat) choice -> length choice = (t mod length opts)%nat ->
+  Permutation perm (seq 0 t) ->
+  (forall s, tiled_choice opts t false choice perm = Some s -> draws_ok np s pms) ->
+  kcfg_binary nc np x choice perm pms = Some r ->
+  (forall i, (i < length x)%nat -> nth i x 0%Z = 1%Z -> (t / length opts <= count_z (Z.of_nat i) r <= t / length opts + 1)%nat) /\
+  (forall i, (i < length x)%nat -> nth i x 0%Z = 0%Z -> count_z (Z.of_nat i) r = 0%nat) /\ length r = t /\ local_opt np r.
+Proof. exact kcfg_binary_spec. Qed.
+Print Assumptions C07_kernel_binary_even_use.
+
+Theorem C07_kernel_integer_floor_ceil_share : forall nc np x start perm pms r,
+  let n := length (rep_from 0 x) in let t := (nc * np)%nat in
+  Permutation perm (seq 0 t) ->
+  (forall s, cfg_integer_sample nc np x start perm = Some s -> draws_ok np s pms) ->
+  kcfg_integer nc np x start perm pms = Some r ->
+  length r = t /\
+  (forall v, In v r -> exists i, v = Z.of_nat i /\ (i < length x)%nat /\ (0 < nth i x 0)%Z) /\
+  (forall i, (i < length x)%nat ->
+     (Z.to_nat (nth i x 0%Z) * t / n <= count_z (Z.of_nat i) r <= (Z.to_nat (nth i x 0%Z) * t + n - 1) / n)%nat) /\
+  local_opt np r.
+Proof. exact kcfg_integer_spec. Qed.
+Print Assumptions C07_kernel_integer_floor_ceil_share.
+
+Theorem C07_kernel_integer_mate_floor_ceil_share : forall nc np x xmap start perm rows,
+  let n := length (rep_from 0 x) in
+  Permutation perm (seq 0 nc) ->
+  kcfg_integer_mate nc np x xmap start perm = Some rows ->
+  exists ds, xmap_rows xmap ds = Some rows /\ length rows = nc /\ length ds = nc /\
+    Forall (fun r => length r = np) rows /\
+    (forall d, In d ds -> exists i, d = Z.of_nat i /\ (i < length x)%nat /\ (0 < nth i x 0)%Z) /\
+    (forall i, (i < length x)%nat ->
+       (Z.to_nat (nth i x 0%Z) * nc / n <= count_z (Z.of_nat i) ds <= (Z.to_nat (nth i x 0%Z) * nc + n - 1) / n)%nat).
+Proof. exact kcfg_integer_mate_spec. Qed.
+Print Assumptions C07_kernel_integer_mate_floor_ceil_share.
+
+(** candidate crosses of a subset-mate decision: rows of the cross map (not columns), used evenly *)
+Theorem C07_kernel_mate_even_use : forall nc np decn xmap choice perm perm2 rows,
+  (0 < length decn)%nat -> NoDup decn ->
+  NoDup choice -> Forall (fun p => (p < length decn)%nat) choice -> length choice = (nc mod length decn)%nat ->
+  Permutation perm (seq 0 nc) -> Permutation perm2 (seq 0 nc) ->
+  kcfg_mate nc np decn xmap choice perm perm2 = Some rows ->
+  exists ds, xmap_rows xmap ds = Some rows /\ length rows = nc /\ length ds = nc /\
+    Forall (fun r => length r = np) rows /\
+    (forall d, In d ds -> In d decn) /\
+    (forall r, In r rows -> exists d, In d decn /\ xmap_row xmap d = Some r) /\
+    (forall i, (i < length decn)%nat ->
+       count_z (nth i decn 0%Z) ds = (nc / length decn + count_nat i choice)%nat /\ (count_nat i choice <= 1)%nat).
+Proof. exact kcfg_mate_spec. Qed.
+Print Assumptions C07_kernel_mate_even_use.
+
+(** 0/1 vectors over candidate crosses (BinaryMateSelectionConfiguration): marked crosses used evenly, unmarked never *)
+Theorem C07_kernel_binary_mate_even_use : forall nc np x xmap choice perm perm2 rows,
+  let opts := rep_from 0 x in
+  is_binary x = true -> (0 < length opts)%nat ->
+  NoDup choice -> Forall (fun p => (p < length opts)%nat) choice -> length choice = (nc mod length opts)%nat ->
+  Permutation perm (seq 0 nc) -> Permutation perm2 (seq 0 nc) ->
+  kcfg_binary_mate nc np x xmap choice perm perm2 = Some rows ->
+  exists ds, xmap_rows xmap ds = Some rows /\ length rows = nc /\ length ds = nc /\
+    Forall (fun r => length r = np) rows /\
+    (forall d, In d ds -> exists i, d = Z.of_nat i /\ (i < length x)%nat /\ nth i x 0%Z = 1%Z) /\
+    (forall i, (i < length x)%nat -> nth i x 0%Z = 1%Z -> (nc / length opts <= count_z (Z.of_nat i) ds <= nc / length opts + 1)%nat) /\
+    (forall i, (i < length x)%nat -> nth i x 0%Z = 0%Z -> count_z (Z.of_nat i) ds = 0%nat).
+Proof. exact kcfg_binary_mate_spec. Qed.
+Print Assumptions C07_kernel_binary_mate_even_use.
+
+(** contribution vectors over candidate crosses (RealMateSelectionConfiguration, ideal pointers) *)
+Theorem C07_kernel_real_mate_floor_ceil_share : forall nc np (p : list Q) xmap order off perm perm2 rows,
+  Forall (fun x => 0 <= x) p -> 0 < sumQ p -> Permutation order (seq 0 (length p)) ->
+  nonincr (gather 0 p order) = true ->
+  0 <= off -> off < sumQ p / inject_Z (Z.of_nat nc) -> Permutation perm (seq 0 nc) -> Permutation perm2 (seq 0 nc) ->
+  kcfg_real_mate_q nc np p xmap order off perm perm2 = Some rows ->
+  exists ds, xmap_rows xmap ds = Some rows /\ length rows = nc /\ length ds = nc /\
+    Forall (fun r => length r = np) rows /\
+    (forall d, In d ds -> exists i, d = Z.of_nat i /\ (i < length p)%nat /\ ~ nth i p 0 == 0) /\
+    (forall i, (i < length p)%nat ->
+       (Qfloor (nth i p 0 * inject_Z (Z.of_nat nc) / sumQ p)%Q <= Z.of_nat (count_z (Z.of_nat i) ds)
+        <= Qceiling (nth i p 0 * inject_Z (Z.of_nat nc) / sumQ p)%Q)%Z).
+Proof. exact kcfg_real_mate_q_spec. Qed.
+Print Assumptions C07_kernel_real_mate_floor_ceil_share.
+
+(** real contribution vectors (ideal pointers): member i is used floor or ceiling of t*x_i/sum(x) times *)
+Theorem C07_kernel_real_floor_ceil_share : forall nc np (p : list Q) order off perm pms r,
+  let k := (nc * np)%nat in
+  Forall (fun x => 0 <= x) p -> 0 < sumQ p -> Permutation order (seq 0 (length p)) ->
+  nonincr (gather 0 p order) = true ->
+  0 <= off -> off < sumQ p / inject_Z (Z.of_nat k) -> Permutation perm (seq 0 k) ->
+  (forall sel, sus_q p order k off perm = Some sel -> draws_ok np (zs sel) pms) ->
+  kcfg_real_q nc np p order off perm pms = Some r ->
+  length r = k /\
+  (forall v, In v r -> exists i, v = Z.of_nat i /\ (i < length p)%nat /\ ~ nth i p 0 == 0) /\
+  (forall i, (i < length p)%nat ->
+     (Qfloor (nth i p 0 * inject_Z (Z.of_nat k) / sumQ p)%Q <= Z.of_nat (count_z (Z.of_nat i) r)
+      <= Qceiling (nth i p 0 * inject_Z (Z.of_nat k) / sumQ p)%Q)%Z) /\
+  local_opt np r.
+Proof. exact kcfg_real_q_spec. Qed.
+Print Assumptions C07_kernel_real_floor_ceil_share.
+
+(** the setters' checks as the source has them: what the protocol accepts, the configuration accepts *)
+Theorem C07_kernel_protocol_mating_parameters_accepted : forall nc np nm npg,
+  kproto_args_ok nc np nm npg = true ->
+  kcfg_args_ok nc np nm npg = true /\ length (matpar_value nc nm) = nc /\ length (matpar_value nc npg) = nc /\
+  Forall (fun v => (0 < v)%Z) (matpar_value nc nm) /\ Forall (fun v => (0 < v)%Z) (matpar_value nc npg).
+Proof. exact kproto_args_accepted_by_cfg. Qed.
+Print Assumptions C07_kernel_protocol_mating_parameters_accepted.
+
+(** several objectives, all six protocol bases: the configuration is built from the decision at the FIRST maximiser of
+    ndset_wt * ndset_trans(front) *)
+Theorem C07_kernel_mo_choice_is_first_argmax : forall D C wt trans front (decns : list D) (cfg : D -> option C) d c,
+  (kselect_mo (@k_sel_subset_pick _) k_sel_subset_score k_sel_subset_mo_row wt trans front decns cfg = Some (d, c) -> mo_choice_post wt trans front decns cfg d c) /\
+  (kselect_mo (@k_sel_real_pick _) k_sel_real_score k_sel_real_mo_row wt trans front decns cfg = Some (d, c) -> mo_choice_post wt trans front decns cfg d c) /\
+  (kselect_mo (@k_sel_integer_pick _) k_sel_integer_score k_sel_integer_mo_row wt trans front decns cfg = Some (d, c) -> mo_choice_post wt trans front decns cfg d c) /\
+  (kselect_mo (@k_sel_binary_pick _) k_sel_binary_score k_sel_binary_mo_row wt trans front decns cfg = Some (d, c) -> mo_choice_post wt trans front decns cfg d c) /\
+  (kselect_mo (@k_sel_mate_pick _) k_sel_mate_score k_sel_mate_mo_row wt trans front decns cfg = Some (d, c) -> mo_choice_post wt trans front decns cfg d c) /\
+  (kselect_mo (@k_sel_imate_pick _) k_sel_imate_score k_sel_imate_mo_row wt trans front decns cfg = Some (d, c) -> mo_choice_post wt trans front decns cfg d c) /\
+  (kselect_mo (@k_sel_bmate_pick _) k_sel_bmate_score k_sel_bmate_mo_row wt trans front decns cfg = Some (d, c) -> mo_choice_post wt trans front decns cfg d c) /\
+  (kselect_mo (@k_sel_rmate_pick _) k_sel_rmate_score k_sel_rmate_mo_row wt trans front decns cfg = Some (d, c) -> mo_choice_post wt trans front decns cfg d c).
+Proof. exact kselect_mo_spec. Qed.
+Print Assumptions C07_kernel_mo_choice_is_first_argmax.
+
+(** one objective: the first row of the solution; the dispatch on the number of objectives; the cross-design attributes are
+    handed to the configuration in their own places (ncross, nparent, nmating, nprogeny), in both branches of all six bases *)
+Theorem C07_kernel_dispatch_and_arguments : forall (nobj : Z) (a b : nat) (c d : list Z),
+  let so := (nobj =? 1)%Z in let mo := (1 <? nobj)%Z in let args := (a, b, c, d) in
+  (k_sel_subset_is_so nobj = so /\ k_sel_subset_is_mo nobj = mo /\ k_sel_subset_so_args a b c d = args /\ k_sel_subset_mo_args a b c d = args) /\
+  (k_sel_real_is_so nobj = so /\ k_sel_real_is_mo nobj = mo /\ k_sel_real_so_args a b c d = args /\ k_sel_real_mo_args a b c d = args) /\
+  (k_sel_integer_is_so nobj = so /\ k_sel_integer_is_mo nobj = mo /\ k_sel_integer_so_args a b c d = args /\ k_sel_integer_mo_args a b c d = args) /\
+  (k_sel_binary_is_so nobj = so /\ k_sel_binary_is_mo nobj = mo /\ k_sel_binary_so_args a b c d = args /\ k_sel_binary_mo_args a b c d = args) /\
+  (k_sel_mate_is_so nobj = so /\ k_sel_mate_is_mo nobj = mo /\ k_sel_mate_so_args a b c d = args /\ k_sel_mate_mo_args a b c d = args) /\
+  (k_sel_imate_is_so nobj = so /\ k_sel_imate_is_mo nobj = mo /\ k_sel_imate_so_args a b c d = args /\ k_sel_imate_mo_args a b c d = args) /\
+  (k_sel_bmate_is_so nobj = so /\ k_sel_bmate_is_mo nobj = mo /\ k_sel_bmate_so_args a b c d = args /\ k_sel_bmate_mo_args a b c d = args) /\
+  (k_sel_rmate_is_so nobj = so /\ k_sel_rmate_is_mo nobj = mo /\ k_sel_rmate_so_args a b c d = args /\ k_sel_rmate_mo_args a b c d = args).
+Proof. exact k_sel_dispatch_args. Qed.
+Print Assumptions C07_kernel_dispatch_and_arguments.
+
+Theorem C07_kernel_single_objective_first_row : forall D C (decns : list D) (cfg : D -> option C),
+  kselect_so k_sel_subset_so_row decns cfg = select_so decns cfg /\ kselect_so k_sel_real_so_row decns cfg = select_so decns cfg /\
+  kselect_so k_sel_integer_so_row decns cfg = select_so decns cfg /\ kselect_so k_sel_binary_so_row decns cfg = select_so decns cfg /\
+  kselect_so k_sel_mate_so_row decns cfg = select_so decns cfg /\ kselect_so k_sel_imate_so_row decns cfg = select_so decns cfg /\
+  kselect_so k_sel_bmate_so_row decns cfg = select_so decns cfg /\ kselect_so k_sel_rmate_so_row decns cfg = select_so decns cfg.
+Proof. exact @kselect_so_model. Qed.
+Print Assumptions C07_kernel_single_objective_first_row.
+
+Theorem C07_kernel_truncation_exact : forall crit k sel, ksort_select crit k = Some sel ->
+  length sel = k /\ NoDup sel /\ Forall (fun i => (i < length crit)%nat) sel /\
+  (forall i j, In i sel -> (j < length crit)%nat -> ~ In j sel -> (nth i crit 0 <= nth j crit 0)%Z) /\
+  is_topk crit sel k = true.
+Proof. exact ksort_select_topk. Qed.
+Print Assumptions C07_kernel_truncation_exact.
+
+Theorem C07_kernel_xmapix_enumerates : forall n k, (0 < k)%nat ->
+  (forall u, exists L, kxmapix n k u = Some L) /\
+  (forall L, kxmapix n k true = Some L ->
+     (forall t, In t L <-> (length t = k /\ StronglySorted lt t /\ Forall (fun i => (i < n)%nat) t)) /\ NoDup L /\ StronglySorted lexlt L) /\
+  (forall L, kxmapix n k false = Some L ->
+     (forall t, In t L <-> (length t = k /\ StronglySorted le t /\ Forall (fun i => (i < n)%nat) t)) /\ NoDup L /\ StronglySorted lexlt L).
+Proof. exact kxmapix_spec. Qed.
+Print Assumptions C07_kernel_xmapix_enumerates.
+
+(** the hypotheses of the kernel theorems are met by concrete values, and the assembled programs compute *)
+Example C07_kernel_hyps_satisfiable :
+  let x := [3;3;0]%Z in let perm := [2;0;1]%nat in let pms := [[0;1;2]; [0]; [0]; [0]]%nat in
+  Permutation perm (seq 0 (3 * 1)) /\
+  (forall s, cfg_integer_sample 3 1 x 4 perm = Some s -> draws_ok 1 s pms) /\
+  kcfg_integer 3 1 x 4 perm pms = Some [1;0;1]%Z /\
+  kcfg_integer_mate 3 2 x [[0;1];[0;2];[1;2]]%Z 4 perm = Some [[0;2];[0;1];[0;2]]%Z /\
+  kproto_args_ok 3 2 (MScalar 2%Z) (MArray [1;4;2]%Z) = true /\ kproto_args_ok 3 2 (MScalar 0%Z) (MScalar 1%Z) = false /\
+  kxmapix 4 2 true = Some [[0;1];[0;2];[0;3];[1;2];[1;3];[2;3]]%nat /\ kxmapix 2 2 false = Some [[0;0];[0;1];[1;1]]%nat /\
+  ksort_select [3; -1; 4; 1; 5; -9; 2; 6]%Z 3 = Some [5; 1; 3]%nat /\
+  kselect_mo (@k_sel_subset_pick _) k_sel_subset_score k_sel_subset_mo_row (-1 # 1)%Q (map (fun r => nth 0 r 0%Q)) [[3#1];[1#1];[1#1]]%Q [10;11;12]%Z (fun d => Some (d + 1)%Z)
+    = Some (11, 12)%Z /\
+  is_binary [1;0;1]%Z = true /\ Permutation [1;0;2]%nat (seq 0 3) /\
+  kcfg_binary_mate 3 2 [1;0;1]%Z [[0;1];[0;2];[1;2]]%Z [1]%nat [1;0;2]%nat [2;1;0]%nat = Some [[1;2];[0;1];[1;2]]%Z /\
+  kcfg_real_mate_q 2 2 [1#2; 0; 1#2]%Q [[0;1];[0;2];[1;2]]%Z [2;0;1]%nat (1#4)%Q [0;1]%nat [1;0]%nat = Some [[0;1];[1;2]]%Z.
+Proof.
+  cbv zeta. destruct C07_integer_hyps_satisfiable as (H1 & H2 & _). split; [exact H1|]. split; [exact H2|].
+  repeat split; try (vm_compute; reflexivity). apply is_perm_sound; reflexivity.
+Qed.
+
+(** * object lifecycle of a configuration (correspondence: kind life - copies, setters, in-place writes, a sampling after every change):
+    once the caller has set decision vector, shape and cross map, nothing of the object's history survives in the fields a sampling
+    reads; equal fields give equal samplings (as functions of the draws) *)
+Theorem C07_session_last_write_wins : forall s0 hist d nc np x tail,
+  Forall (fun o => match o with OpCopy | OpDeepCopy | OpSetRng | OpSample => True | _ => False end) tail ->
+  session s0 (hist ++ [OpSetDecn d; OpSetShape nc np; OpSetXmap x] ++ tail) = {| st_nc := nc; st_np := np; st_decn := d; st_xmap := x |}.
+Proof. exact session_last_write_wins. Qed.
+Print Assumptions C07_session_last_write_wins.
+
+Theorem C07_session_state_determines_sample : forall s0 s0' h h', session s0 h = session s0' h' ->
+  sample_subset (session s0 h) = sample_subset (session s0' h') /\ sample_binary (session s0 h) = sample_binary (session s0' h') /\
+  sample_integer (session s0 h) = sample_integer (session s0' h') /\ sample_mate (session s0 h) = sample_mate (session s0' h') /\
+  sample_integer_mate (session s0 h) = sample_integer_mate (session s0' h') /\ sample_binary_mate (session s0 h) = sample_binary_mate (session s0' h').
+Proof. exact session_state_determines_sample. Qed.
+Print Assumptions C07_session_state_determines_sample.
+
+Example C07_session_hyps_satisfiable :
+  Forall (fun o => match o with OpCopy | OpDeepCopy | OpSetRng | OpSample => True | _ => False end) [OpSample; OpCopy; OpSample] /\
+  session {| st_nc := 1; st_np := 1; st_decn := [0]%Z; st_xmap := [] |} [OpSetDecn [5;6]%Z; OpSample] =
+  session {| st_nc := 3; st_np := 2; st_decn := [1;2;3]%Z; st_xmap := [] |} [OpMutateDecn [5;6]%Z; OpDeepCopy; OpSetShape 1 1].
+Proof. split; [repeat constructor | reflexivity]. Qed.
+
+(** * finding C07-uc-integer-bounds-shape (open): UsefulnessCriterionIntegerSelection.problem builds the upper bound of its decision
+    space from the protocol's nmating ARRAY: the two bounds can be stacked iff the protocol asks for one cross; for every valid
+    cross design with two or more crosses select() raises instead of producing a configuration *)
+Theorem C07_uc_integer_bounds_refuted : exists nc np nm nx,
+  proto_args_ok nc np (MArray nm) (MScalar 1%Z) = true /\ (0 < nx)%nat /\ uc_int_bounds nc np nm nx = None.
+Proof. exact uc_int_bounds_refuted. Qed.
+Print Assumptions C07_uc_integer_bounds_refuted.
+
+Theorem C07_uc_integer_bounds_partial : forall nc np nm nx, length nm = nc -> (0 < nx)%nat ->
+  (uc_int_bounds nc np nm nx <> None <-> nc = 1%nat).
+Proof. exact uc_int_bounds_iff. Qed.
+Print Assumptions C07_uc_integer_bounds_partial.
 
 Example C07_hyps_satisfiable :
   (* three selfed crosses, three descent passes, then a shuffle within every cross *)
